@@ -490,6 +490,20 @@ func c15One(r *ev.Rec) func(c15Case) ev.Verdict {
 			}
 		}
 		r.Class("auts:mac-octet-pair", 56)
+		// tokens whose MAC-S was computed over another AMF than the dummy 00 00 that TS 33.102 6.3.3 prescribes (the
+		// separation bit alone, the AMF of the challenge, all ones): not valid tokens, however "nearly right"
+		for _, am := range [][2]byte{{0x80, 0x00}, amf, {0xff, 0xff}, {0x00, 0x01}} {
+			if am == [2]byte{0, 0} {
+				continue
+			}
+			o := refcrypto.Milenage(k, opc, rnd, sqnUE, am)
+			a := wantAuts
+			copy(a[6:], o.MacS[:])
+			if f := hss(fmt.Sprintf("AUTS with MAC-S over AMF %x", am), a); f != nil {
+				return *f
+			}
+		}
+		r.Class("auts:mac-s-over-another-amf", 4)
 		usim := refsec.USIM(k, opc, rnd, wantAutn, sqnUE)
 		if usim.Fresh {
 			v.Classes = append(v.Classes, "valid:fresh")
